@@ -403,6 +403,25 @@ pub fn monitors(
             fails.push(format!("C12:proxy {} marked in use but in no chunk", a));
         }
     }
+    // membership and free pool are exact complements: the served free-pool view is exactly the registered proxies that are in no
+    // cluster, are not marked failed and have no (non-empty) set of failure reports
+    {
+        let q = undermoon::broker::verif::MetaStoreQuery::new(after);
+        let served: std::collections::BTreeSet<String> = q.get_free_proxy_resource().into_iter().map(|r| r.proxy_address).collect();
+        let expected: std::collections::BTreeSet<String> = after
+            .all_proxies
+            .iter()
+            .filter(|(a, r)| {
+                r.cluster.is_none() && !after.failed_proxies.contains(*a) && !after.failures.get(*a).map(|m| !m.is_empty()).unwrap_or(false)
+            })
+            .map(|(a, _)| a.clone())
+            .collect();
+        if served != expected {
+            let missing: Vec<&String> = expected.difference(&served).collect();
+            let extra: Vec<&String> = served.difference(&expected).collect();
+            fails.push(format!("C12:free pool is not the complement of membership / failed / reported: missing {:?} extra {:?}", missing, extra));
+        }
+    }
     let alloc_op = matches!(op, "addcluster" | "addnodes" | "scaleup" | "autochange" | "replace");
     if alloc_op && !ok && op != "replace" && op != "autochange" && store_modulo_epoch(before) != store_modulo_epoch(after) {
         // replace_failed_proxy legitimately keeps the takeover when no replacement exists;
@@ -598,6 +617,16 @@ pub fn monitors(
     }
 
     // ---- C18
+    if op == "cleanfail" {
+        // cleanup with (ttl, quorum): no expired report and no empty report set survives it
+        let ttl: i64 = toks[1].parse().unwrap_or(0);
+        let r0 = chrono::Utc::now().timestamp();
+        for (a, m) in after.failures.iter() {
+            if m.is_empty() || m.values().any(|t| r0 - *t >= ttl) {
+                fails.push(format!("C18:expired or empty report set kept for {} after cleanup", a));
+            }
+        }
+    }
     if op == "getfail" && res.starts_with("list:") {
         let ttl: i64 = toks[1].parse().unwrap_or(0);
         let q: usize = toks[2].parse().unwrap_or(0);
